@@ -165,7 +165,7 @@ def pull_async(
         # a non-archive node
         if req.node_from.archive == io.node.archive:
             pullrun_metric.inc(method="link", remote="0")
-            ioresult = ioutil.hardlink(from_path, to_dir, req.file.name)
+            ioresult = ioutil.hardlink(from_path, to_dir, to_file.name)
             pullrun_metric.dec(method="link", remote="0")
             if ioresult is not None:
                 log.info(f"Hardlinked local file {req.file.path}")
@@ -184,7 +184,7 @@ def pull_async(
                 log.warning("Falling back on shutil.copy to complete local pull.")
                 pullrun_metric.inc(method="internal", remote="0")
                 ioresult = ioutil.local_copy(
-                    from_path, to_dir, req.file.name, req.file.size_b
+                    from_path, to_dir, to_file.name, req.file.size_b
                 )
                 pullrun_metric.dec(method="internal", remote="0")
 
